@@ -317,7 +317,7 @@ def run_check(mod, tier: str, seed: int) -> int:
         "property_id": mod.ID, "tier": tier, "seed": seed, "level": "exploration", "coverage": cov,
         "assumptions": mod.DESCRIPTION["assumptions"], "wall_s": round(wall, 2), "violations": len(agg.violations),
     }
-    if exit_code != EXIT_HARNESS:
+    if exit_code != EXIT_HARNESS and not os.environ.get("VERIF_NO_EVIDENCE"):
         os.makedirs(os.path.join(VERIF_DIR, "evidence"), exist_ok=True)
         with open(os.path.join(VERIF_DIR, "evidence", f"{mod.ID}.json"), "w") as f:
             json.dump(ev, f, indent=1, sort_keys=True)
